@@ -1988,8 +1988,8 @@ fn is_port_range(port: &str) -> bool {
         cur = chars.next();
         match cur {
             Some(c) if c.is_ascii_digit() => digits += 1,
-            // start of next part
-            Some('-' | '/') => break,
+            // start of next part (only after at least one digit)
+            Some('-' | '/') if digits > 0 => break,
             // illegal character
             Some(_) => return false,
             // string has ended, just make sure we've seen at least one digit
@@ -2004,8 +2004,8 @@ fn is_port_range(port: &str) -> bool {
             cur = chars.next();
             match cur {
                 Some(c) if c.is_ascii_digit() => digits += 1,
-                // start of next part
-                Some('/') => break,
+                // start of next part (only after at least one digit)
+                Some('/') if digits > 0 => break,
                 // illegal character
                 Some(_) => return false,
                 // string has ended, just make sure we've seen at least one digit
